@@ -225,13 +225,17 @@ def check_cat(res, name, n):
     alpha = ALPHABETS[name]
     for combo in itertools.product(range(len(alpha)), repeat=n):
         vals = np.array([alpha[i] for i in combo]) if n else np.array([], dtype=np.array(alpha).dtype)
-        reshapes = [vals.shape]
+        # memory layouts: C order, 2-d reshape, transposed view, Fortran order, reversed view
+        layouts = [('c', vals)]
         if n in (4, 6):
-            reshapes.append((2, n // 2))
-        for shp in reshapes:
-            arr = vals.reshape(shp)
-            case = dict(kind='cat', alphabet=name, values=arr.tolist())
-            res.case(sig=('cat', name, combo, shp) if len(set(combo)) > 1 else None,
+            two = vals.reshape((2, n // 2))
+            layouts += [('c2d', two), ('transposed', two.T), ('fortran', np.asfortranarray(two))]
+        if n >= 2:
+            layouts.append(('reversed', vals[::-1]))
+        for lay, arr in layouts:
+            shp = arr.shape
+            case = dict(kind='cat', alphabet=name, values=arr.tolist(), layout=lay)
+            res.case(sig=('cat', name, combo, shp, lay) if len(set(combo)) > 1 else None,
                      sample=dict(fn='categorical_ndarray', **case))
             exp_cats = np.array(sorted(set(vals.tolist())), dtype=vals.dtype)
             try:
